@@ -77,8 +77,17 @@ class SQLStorage(Storage):
         log.info('Updated Policy with UID=%s. New value is: %s', policy.uid, policy)
 
     def delete(self, uid):
-        self.session.query(PolicyModel).filter(PolicyModel.uid == uid).delete()
-        self.session.commit()
+        # Remove the elements explicitly: not every database enforces the foreign keys' ON DELETE CASCADE (SQLite does so
+        # only with PRAGMA foreign_keys=ON, MySQL's MyISAM never does), and rows left behind would become elements of
+        # a policy that is added under the same uid later.
+        try:
+            for model in (PolicySubjectModel, PolicyResourceModel, PolicyActionModel):
+                self.session.query(model).filter(model.uid == uid).delete()
+            self.session.query(PolicyModel).filter(PolicyModel.uid == uid).delete()
+            self.session.commit()
+        except Exception:
+            self.session.rollback()
+            raise
         log.info('Deleted Policy with UID=%s.', uid)
 
     def _get_filtered_cursor(self, inquiry, checker):
